@@ -42,8 +42,9 @@ func VerifC19_TwoCreations() {
 		tx2 = []byte("tx-two")
 	}
 	srv := NewMsgServerImpl(k)
-	msg1 := &types.MsgCreateRecord{Contents: contentA, Creator: creator.String()}
-	msg2 := &types.MsgCreateRecord{Contents: second, Creator: creator.String()}
+	// the messages carry copies: what the handler does to its input must not touch the reference the read-back is compared with
+	msg1 := &types.MsgCreateRecord{Contents: append([]types.Content{}, contentA...), Creator: creator.String()}
+	msg2 := &types.MsgCreateRecord{Contents: append([]types.Content{}, second...), Creator: creator.String()}
 	verifAssume(msg1.ValidateBasic() == nil && msg2.ValidateBasic() == nil)
 	r1, err1 := srv.CreateRecord(e.ctx.WithTxBytes(tx1), msg1)
 	verifAssert(err1 == nil, "record creation succeeds")
